@@ -348,10 +348,54 @@ def oracle(case, obs):
             elif sn["tx"] != prev:
                 return "serviceSends changed txbs although nothing was accepted"
         prev = sn["tx"]
-    if case.get("drain") and not obs["cutoff"] and obs["connected"]:
+    # health: answers that are only data, accepts and the class's own would-block codes (EAGAIN; SSLWantRead AND
+    # SSLWantWrite, on a send or on a recv) never raise and never cut the connection off
+    kind = case["kind"]
+    prev_cut = False
+    all_benign = True
+    for op, sn in zip(case["ops"], obs["snaps"]):
+        answers = op_answers(op)
+        ben = all(benign(kind, a) for a in answers)
+        all_benign = all_benign and ben
+        if ben and answers:
+            if sn["res"][0] != "ok":
+                return f"{kind}.{op[0]}: only data / accept / would-block answers, yet it raised {sn['res'][1]}"
+            if sn["cut"] and not prev_cut:
+                return f"{kind}.{op[0]}: only data / accept / would-block answers, yet the connection was marked cutoff"
+        prev_cut = sn["cut"]
+    if all_benign and obs["cutoff"]:
+        return "connection cut off although the kernel never reported a fault or EOF"
+    if case.get("drain") and all_benign and obs["connected"]:
+        if obs["cutoff"] or txbs or ksent != queued:
+            return "healthy connection serviced len(txbs) times did not deliver everything"
+    elif case.get("drain") and not obs["cutoff"] and obs["connected"]:
         if txbs or ksent != queued:
             return "healthy connection serviced len(txbs) times did not deliver everything"
     return None
+
+
+def op_answers(op):
+    k = op[0]
+    if k == "sends":
+        return [op[1]]
+    if k == "recvs":
+        return list(op[1])
+    if k == "once":
+        return [op[1]]
+    if k == "service":
+        return [op[1]] + list(op[2])
+    return []
+
+
+def benign(kind, a):
+    """data chunk, accept count, or a would-block the class must tolerate at any send or recv"""
+    if a[0] == "acc":
+        return True
+    if a[0] == "data":
+        return a[1] != ""
+    if is_tls(kind):
+        return a[1] == "ssl" and a[2] in TLS_BLOCK
+    return a[1] == "os" and a[2] in PLAIN_BLOCK
 
 
 # ----------------------------------------------------------------------------- Gallina
@@ -460,7 +504,8 @@ def directed():
         # receives: chunks, would-block, exhausted, EOF; consumption
         out.append({"kind": kind, "conn0": True, "bs": 16, "wl": WL2, "ops": [
             ["recvs", [["data", b"HTTP/1.1 200 OK".hex()], ["data", b"\r\n\r\n".hex()], blk]],
-            ["recvs", []], ["once", ["data", b"ab\ncd".hex()]], ["once", blk], ["take"],
+            ["recvs", []], ["once", ["data", b"ab\ncd".hex()]], ["once", blk], ["once", blk2], ["take"],
+            ["recvs", [["data", b"y".hex()], blk2]],
             ["recvs", [["data", b"z".hex()]]], ["tx", p1], ["service", ["acc", 7], [["data", b"tail".hex()]]],
             ["recvs", [["data", b"q".hex()], ["data", ""], ["data", b"never".hex()]]],
             ["recvs", [["data", b"never".hex()]]], ["sends", ["acc", 3]], ["once", ["data", b"never".hex()]],
@@ -711,10 +756,84 @@ def soak(tls, seed, total=600000, sockbuf=2048, bs=1024, max_cycles=3000000, max
         wls.close()
 
 
+def gen_server_liveness(rng):
+    """Server scene (format of c10.py) with healthy answers only: data, partial accepts and would-block of either
+    kind at any recv/send on any connection, then drain passes.  Every connection must survive and deliver."""
+    tls = rng.random() < 0.6
+    kind = "remotertls" if tls else "remoter"
+    ids = list(range(1, rng.choice([1, 2, 3, 4]) + 1))
+    cx0 = [i for i in ids if tls and rng.random() < 0.25]
+    ix0 = [i for i in ids if i not in cx0]
+    passes, queued = [], {i: 0 for i in ids}
+    for n in range(rng.choice([1, 2, 4])):
+        tx = []
+        for i in ids:
+            if (i in ix0 or n > 0) and rng.random() < 0.7:
+                d = hx(rng, rng.randint(1, 30))
+                tx.append([i, d])
+                queued[i] += len(d) // 2
+        io = []
+        for i in ids:
+            recvs = []
+            for _ in range(rng.choice([0, 1, 2, 3])):
+                recvs.append(["data", hx(rng, rng.randint(1, 16))] if rng.random() < 0.6 else block_ans(kind, rng.randrange(2)))
+            send = ["acc", rng.choice([0, 1, 3, 7])] if rng.random() < 0.6 else block_ans(kind, rng.randrange(2))
+            io.append([i, {"recvs": recvs, "send": send}])
+        passes.append({"tx": tx, "hs": [[i, ["done"]] for i in cx0] if n == 0 else [], "io": io})
+    for _ in range(max(queued.values()) + 1):      # drain: the kernel takes >= 1 byte per service
+        passes.append({"tx": [], "hs": [], "io": [[i, {"recvs": [block_ans(kind, rng.randrange(2))],
+                                                       "send": ["acc", rng.randint(1, 4)]}] for i in ids]})
+    return {"scene": "server", "tls": tls, "ix0": ix0, "cx0": cx0, "passes": passes}
+
+
+def server_liveness_why(case, obs):
+    ids = case["ix0"] + case["cx0"]
+    want_rx = {i: 0 for i in ids}
+    for n, (p, po) in enumerate(zip(case["passes"], obs["passes"])):
+        if po["res"][0] != "ok":
+            return f"pass {n}: Server.service raised {po['res'][1]} although no socket reported a fault"
+        now = {e[0]: e for e in po["ixes"]}
+        for i in ids:
+            if i not in now:
+                return f"pass {n}: healthy connection {i} was removed from the server (only data / would-block answers)"
+            if now[i][1]:
+                return f"pass {n}: healthy connection {i} was marked cutoff"
+        for i, sc in p["io"]:
+            for a in sc["recvs"]:
+                if a[0] != "data":
+                    break
+                want_rx[i] += len(a[1]) // 2
+    last = {e[0]: e for e in obs["passes"][-1]["ixes"]}
+    for i in ids:
+        if last[i][2] != 0:
+            return f"connection {i}: {last[i][2]} queued bytes not delivered after the drain passes"
+        if last[i][3] != want_rx[i]:
+            return f"connection {i}: rxbs holds {last[i][3]} bytes, the kernel delivered {want_rx[i]}"
+    return None
+
+
+def server_liveness(ctx, n):
+    import random
+    from harness.drivers import c10
+    rng = random.Random(ctx.seed * 7919 + 9)
+    bad = 0
+    for _ in range(n):
+        case = gen_server_liveness(rng)
+        try:
+            why = server_liveness_why(case, c10.run_server(case))
+        except Exception as ex:
+            why = f"harness escape {type(ex).__name__}: {ex}"
+        if why and bad < 3:
+            ctx.violations.append({"kind": "server-liveness", "why": why, "case": case})
+        bad += bool(why)
+    return {"server_liveness_scenes": n, "server_liveness_failures": bad}
+
+
 def extra(tier, ctx):
+    out = server_liveness(ctx, 200 if tier != "thorough" else 2000)
     if tier != "thorough":
-        return {}
-    out = {"soak": []}
+        return out
+    out["soak"] = []
     for tls in (False, True):
         for k in range(3):
             try:
